@@ -961,6 +961,39 @@ class _EvalBuilder(_Builder):
         gens = n.generators  # type: ignore[attr-defined]
         frame = i.frames[-1] if i.frames else {}
         saved = dict(frame)
+        if i.frames and len(gens) == 1 and not gens[0].is_async and isinstance(n, (ast.ListComp, ast.SetComp, ast.GeneratorExp)) and not self.pure:
+            # over a constant sequence whose filter and element fold: the comprehension is the constant result (exact)
+            it0 = self.ev(gens[0].iter)
+            if it0[0] == "c" and isinstance(it0[1], tuple) and len(it0[1]) <= 32:
+                out_c = []
+                ok_c = True
+                save_ev = len(i.events)
+                try:
+                    for x in it0[1]:
+                        i._assign(gens[0].target, C(x), n, quiet=True)
+                        keep = True
+                        for c_ in gens[0].ifs:
+                            t_ = simplify(self.ev(c_))
+                            if t_[0] != "c":
+                                ok_c = False
+                                break
+                            if not t_[1]:
+                                keep = False
+                                break
+                        if not ok_c:
+                            break
+                        if keep:
+                            e_ = simplify(self.ev(n.elt))  # type: ignore[attr-defined]
+                            if e_[0] != "c":
+                                ok_c = False
+                                break
+                            out_c.append(e_[1])
+                finally:
+                    frame.clear()
+                    frame.update(saved)
+                if ok_c:
+                    return C(frozenset(out_c)) if isinstance(n, ast.SetComp) else C(tuple(out_c))
+                del i.events[save_ev:]
         try:
             its = []
             for g in gens:
@@ -984,6 +1017,21 @@ class _EvalBuilder(_Builder):
 
     def _fold_call(self, s: Sym) -> Sym:
         f, args, kw = s[1], s[2], s[3]
+        if not kw and len(args) == 1 and dotted(f) in ("os.path.commonprefix", "commonprefix"):
+            # the longest common leading run of constant sequences (a pure standard-library function)
+            seqs = None
+            if args[0][0] in ("list", "tuple") and all(x[0] == "c" and isinstance(x[1], (tuple, str)) for x in args[0][1]):
+                seqs = [x[1] for x in args[0][1]]
+            elif args[0][0] == "c" and isinstance(args[0][1], tuple) and all(isinstance(x, (tuple, str)) for x in args[0][1]):
+                seqs = list(args[0][1])
+            if seqs is not None:
+                if not seqs:
+                    return C("")
+                lo, hi = min(seqs), max(seqs)
+                k = 0
+                while k < len(lo) and k < len(hi) and lo[k] == hi[k]:
+                    k += 1
+                return C(lo[:k])
         if f[0] == "n" and not kw:
             name = f[1]
             if name == "bool" and len(args) == 1 and args[0][0] == "c":
